@@ -481,3 +481,55 @@ def record_session_trace(c, ident, rng=None):
         return rec.trace(ident, c["fee"])
     finally:
         shutil.rmtree(csv_dir, ignore_errors=True)
+
+
+# ---------------------------------------------------------------------------------------------
+# the repository's OWN end-to-end tests as trace sources
+def record_repo_e2e_traces():
+    """Run tests/integration/trading/test_backtest_e2e.py (unmodified, imported from /repo) with every broker
+    call recorded.  Returns [(test name, passed?, trace)].  Their prices have 14 decimals and the account holds
+    10^6, so the traces are validated in BrokerTrace's Structural mode."""
+    import importlib.util
+    from .common import REPO
+    path = os.path.join(REPO, "tests", "integration", "trading", "test_backtest_e2e.py")
+    fixtures = os.path.join(REPO, "tests", "integration", "trading", "fixtures")
+    spec = importlib.util.spec_from_file_location("qsv_repo_e2e", path)
+    mod = importlib.util.module_from_spec(spec)
+    spec.loader.exec_module(mod)
+    out = []
+    saved_env = os.environ.get("QSTRADER_CSV_DATA_DIR")
+    try:
+        for name in sorted(n for n in dir(mod) if n.startswith("test_")):
+            import contextlib
+            import io
+            ob = Observer()
+            rec = BrokerRecorder(ob, ["EQ:ABC", "EQ:DEF", "EQ:GHI"])
+            ok = True
+            with ob.installed():
+                with rec.installed():
+                    buf = io.StringIO()
+
+                    class _Capsys(object):            # stand-in for pytest's capsys fixture (one test reads what was printed)
+                        def readouterr(self):
+                            import collections
+                            return collections.namedtuple("CaptureResult", "out err")(buf.getvalue(), "")
+
+                    with contextlib.redirect_stdout(buf):      # the tests switch event printing on
+                        try:
+                            fn = getattr(mod, name)
+                            if fn.__code__.co_argcount == 2:
+                                fn(fixtures, _Capsys())
+                            else:
+                                fn(fixtures)
+                        except AssertionError:
+                            ok = False
+                        except Exception:
+                            ok = False
+            if rec.t0 is not None:
+                out.append((name, ok, rec.trace(900000 + len(out), dict(kind="zero", c=0, t=0))))
+    finally:
+        if saved_env is None:
+            os.environ.pop("QSTRADER_CSV_DATA_DIR", None)
+        else:
+            os.environ["QSTRADER_CSV_DATA_DIR"] = saved_env
+    return out
